@@ -113,6 +113,8 @@ def handle (j : Json) : Except String Verdict := do
   let keysVary := rows.any (mapLacksKey root)
   let asym := match getOpt j "ty_desc" with
     | some desc => (match rtyOfJson false desc, rtyOfJson true desc with | .ok a, .ok b => a != b | _, _ => false)
+        -- since the borrowed leaves are part of the type language the asymmetric `&[u8]` is ONE leaf, `bytes_seq`
+        || (desc.compress.splitOn "\"bytes_seq\"").length > 1
     | none => false
   let readExcluded := keysVary || asym
   let tags := (if nullEnum then ["c06-excl:null-enum"] else []) ++ (if dataLess then ["c06-excl:data-less-newtype"] else []) ++
